@@ -4,7 +4,7 @@ from gradesim.worlds.tenants import TenantWorld
 PROFILE = {
     'prop': 'C11', 'name': 'c11',
     'kinds': {'string': 2, 'formula': 3, 'numerical': 1.5, 'matrix': 2.5, 'simitem': 2,
-              'singlelist': 2.5, 'interval': 2, 'sum': 0.7, 'list': 2},
+              'singlelist': 2.5, 'interval': 2, 'sum': 0.7, 'list': 2, 'integral': 0.4},
     'n_tenants': (2, 6),
     'len': {'quick': (2, 24), 'thorough': (2, 60)},
     'runs': {'quick': 2400, 'thorough': 30000},
